@@ -1,5 +1,6 @@
 """C02 - every primary and secondary transported exactly once (structural clauses)."""
 import itertools
+import astutil
 from common import C, short, field_writers, check_owners, local_refs
 from cfg import path_leaf, follow, UnknownAtom
 from facts import AnalysisBroken
@@ -245,43 +246,110 @@ def run(db, cx):
                "secondary counter")
     la_dec = [la_decs[0][0]]
     svar = la_decs[0][1]          # the per-track secondary counter (whatever it is called)
-    # ProcessSecondaries: in-place block = calls SimTrackView::operator=
-    ps_in = [b for (b, i, ev) in ps.calls(C + "SimTrackView::operator=")]
-    ps_else = [b for (b, i, ev) in ps.events("write")
-               if path_leaf(ev.get("path")) == TIS + "initializers"]
-    cx.require(len(ps_in) == 1 and len(ps_else) >= 1,
-               "ProcessSecondaries: in-place / queued arms not found")
-    # the "already initialised in place" flag: the local bool set to true in the in-place arm
-    ivars = [e.get("var") for e in ps.blocks[ps_in[0]]["ev"]
-             if e["e"] == "def" and e.get("rhs") == "true"]
-    ivar = ivars[0] if ivars else None
-    # start of the decision in ProcessSecondaries: true edge of `if (secondary)`
-    sec_br = ps.branch_blocks(lambda c, _b: c.get("conv", "").endswith("Secondary::operator bool")
-                              or c.get("core") == "secondary")
-    cx.require(len(sec_br) == 1, "ProcessSecondaries: `if (secondary)` not found (%d)" % len(sec_br))
-    ps_start = ps.blocks[sec_br[0]]["succ"][ps.cond_polarity_edge(sec_br[0], True)]
+    # LocateAlive: keep(A, B, S) by walking its CFG under the truth assignment
+    def la_keep(A, B, S):
+        env = {"A": A, "B": B, "S": S, "I": True}
+        return decide(la, la.entry, set(la_dec), env) is not None
+    ivar = None
     rows = []
     agree = True
+    detail = ""
     try:
         for A, B in itertools.product([False, True], repeat=2):
-            env = {"A": A, "B": B, "S": True, "I": True}
-            r1 = decide(la, la.entry, set(la_dec), env) is not None
-            r2 = decide(ps, ps_start, set(ps_in) | set(ps_else), env) in ps_in
-            rows.append({"alive": A, "init_charge": B, "LocateAlive_keeps_slot": r1,
-                         "ProcessSecondaries_in_place": r2})
-            if r1 != r2:
-                agree = False
-        # no secondary -> LocateAlive must not keep the slot
-        for A, B in itertools.product([False, True], repeat=2):
-            env = {"A": A, "B": B, "S": False, "I": True}
-            if decide(la, la.entry, set(la_dec), env) is not None:
+            if la_keep(A, B, False):
                 agree = False
                 rows.append({"alive": A, "init_charge": B, "no_secondary_but_keeps_slot": True})
     except UnknownAtom as e:
-        raise AnalysisBroken("in-place predicate uses an atom outside {alive, init_charge, "
-                             "has-secondary, first}: %s" % e)
+        raise AnalysisBroken("LocateAlive's slot decision uses an atom outside {alive, init_charge, "
+                             "has-secondary}: %s" % e)
+    # ProcessSecondaries: A7 (lib/boolinterp.py) - the body is interpreted over its boolean locals,
+    # the parent status, the track order and an abstract sequence of surviving / cleared
+    # secondaries; effects: in-place initialisation, queued initializer, slot freed
+    import boolinterp
+    psa = [f for f in db.get(D + "ProcessSecondariesExecutor::operator()") if "ast" in f.r
+           and f.has_call(C + "SimTrackView::operator=")]
+    cx.require(psa, "ProcessSecondariesExecutor body (AST) not found")
+    ast = psa[0].r["ast"]
+
+    def enum_of(n):
+        n = astutil.strip(n)
+        return n.get("name") if n is not None and n["k"] == "DeclRefExpr" and "cval" in n else None
+
+    def atom2(n, st):
+        if n["k"] == "BinaryOperator" and n["op"] in ("==", "!="):
+            l, r = astutil.strip(n["c"][0]), astutil.strip(n["c"][1])
+            for x, y in ((l, r), (r, l)):
+                en = enum_of(y)
+                if en is None:
+                    continue
+                if x["k"] == "CXXMemberCallExpr" and x.get("callee") == C + "SimTrackView::status" \
+                        and len(x["c"]) == 1:
+                    v = st.data["status"] == en
+                    return v if n["op"] == "==" else not v
+                if x["k"] == "MemberExpr" and x.get("name") == "track_order" and en == "init_charge":
+                    v = st.data["init_charge"]
+                    return v if n["op"] == "==" else not v
+        if n["k"] == "CXXMemberCallExpr" and n.get("callee", "").startswith(C + "Secondary::operator") \
+                and "loopvar" in st.data:
+            return st.data["loopvar"][1]
+        return None
+
+    def effect(n, st, decl=None):
+        for x in astutil.walk(n):
+            if x["k"] == "LambdaExpr":
+                return
+        if n["k"] == "CXXOperatorCallExpr" and n.get("oop") == "=":
+            cal = n.get("callee", "")
+            if cal == C + "SimTrackView::operator=":
+                st.effects.append("inplace")
+                st.data["status"] = "initializing"
+            elif cal == C + "TrackInitializer::operator=" and any(
+                    y["k"] == "MemberExpr" and y.get("name") == "initializers" for y in astutil.walk(n["c"][1])):
+                st.effects.append("queued")
+        if n["k"] == "CXXMemberCallExpr" and n.get("callee") == C + "SimTrackView::status" and len(n["c"]) == 2:
+            en = enum_of(n["c"][1])
+            st.effects.append("status:%s" % en)
+            st.data["status"] = en
+
+    def sequence(rng, st):
+        r = astutil.strip(rng)
+        if r["k"] == "CXXMemberCallExpr" and r.get("callee", "").endswith("::secondaries"):
+            return list(st.data["seq"])
+        return None
+    nruns = 0
+    try:
+        for P in ("alive", "killed", "errored"):
+            for B in (False, True):
+                for n_ in range(0, 5):
+                    for seq in itertools.product([True, False], repeat=n_):
+                        def init(st, P=P, B=B, seq=seq):
+                            st.data.update(status=P, init_charge=B, seq=seq)
+                        finals = boolinterp.explore(ast, atom2, effect, sequence, init)
+                        nruns += 1
+                        outs = set((st.effects.count("inplace"), st.effects.count("queued"),
+                                    st.effects.count("status:inactive")) for st in finals)
+                        surv = sum(seq)
+                        keep = la_keep(P == "alive", B, surv > 0)
+                        want = (1 if keep else 0, surv - (1 if keep else 0),
+                                1 if (P == "killed" and not keep) else 0)
+                        if outs != {want}:
+                            agree = False
+                            if len(rows) < 6:
+                                rows.append({"parent": P, "init_charge": B,
+                                             "secondaries": ["survives" if x else "cleared" for x in seq],
+                                             "LocateAlive_keeps_slot": keep,
+                                             "expected (in place, queued, freed)": want,
+                                             "ProcessSecondaries": sorted(outs)})
+    except astutil.OutOfVocabulary as e:
+        raise AnalysisBroken("ProcessSecondariesExecutor outside the vocabulary of the boolean "
+                             "interpretation: %s" % e)
+    cx.count("in-place agreement: (parent status, track order, secondary sequence) cases", nruns)
+    if agree:
+        rows.append({"cases": nruns, "all": "in place == LocateAlive keeps the slot; queued == survivors "
+                                           "- in place; slot freed iff parent killed and nothing in place"})
     cx.sample({"in_place_truth_table": rows})
     cx.ob("C02.5-inplace-agreement", "LocateAlive keeps the slot <=> ProcessSecondaries initialises "
-          "in place", agree, str(rows), short(la.loc),
+          "exactly one surviving secondary in place (all secondary sequences up to length 4)", agree,
+          str(rows), short(la.loc),
           why="a mismatch either loses the first secondary (slot kept, nobody fills it) or puts "
               "two tracks in one slot / double-counts a secondary")
